@@ -844,6 +844,100 @@ def r4c_copy_of_a_paragraph(rep, src):
                     rep.ok('C10.R4', fn.site, what, 'added once, parent link re-targeted')
 
 
+def r4d_copy_of_a_document(rep, src):
+    """copy.deepcopy() of a document, then insert / append on the copy and on the original: the copy is made as the copy module makes it --
+    by the class's own __deepcopy__ where it has one (interpreted), attribute by attribute otherwise, the linked list rebuilt with new
+    nodes (its __reduce__, C09.R5), and a WEAK link copied as it is (the copy module treats a weak reference as an atom, so a parent link
+    that no protocol re-targets still names the original's document).  A paragraph of the copy stands in the copy: the copy refuses to
+    take it a second time, and the original refuses it as a paragraph of another document; the original's own paragraphs are refused by
+    the copy.  A paragraph that stands in two places is one object: one edit changes two places of the dump."""
+    PROT = ('__reduce__', '__reduce_ex__', '__getstate__', '__setstate__', '__copy__')
+    mod = src.mod(PM)
+    fcls = 'Deb822FileElement'
+    own = mod.method(fcls, '__deepcopy__')
+    if any(mod.method(fcls, m_) is not None for m_ in PROT):
+        raise AnalysisError('%s:%s has a copy protocol other than __deepcopy__ (not modelled)' % (PM, fcls))
+    n = 0
+    for gone in (False, True):
+        for op, idxs in (('append', [None]), ('insert', [0, 1, 2])):
+            for idx in idxs:
+                for target, which in (('the copy', 'the copy'), ('the original', 'the copy'), ('the copy', 'the original')):
+                    if gone and (target, which) != ('the copy', 'the copy'):
+                        continue
+                    log = []
+                    heap = mk_heap(src, log)
+                    heap.hooks['.convert_to_text'] = lambda it_, args_, kw_: it_.h.objs[args_[0].name].get('text', '')
+                    objs = [mk_para(heap, '@P1'), heap.alloc('Deb822WhitespaceToken', {'text': '\n', 'parent_element': None}), mk_para(heap, '@P2')]
+                    lst, nodes = H.build_list(heap, objs)
+                    f = heap.alloc(fcls, {'_token_and_elements': lst, 'parent_element': None}, name='@file')
+                    for o in objs:
+                        heap.objs[o.name]['parent_element'] = f
+                    memo = {}
+
+                    def deep(v):
+                        if not isinstance(v, H.Ref):
+                            return v
+                        if v.name in memo:
+                            return memo[v.name]
+                        o_ = heap.objs[v.name]
+                        if o_['__class__'] == 'LinkedList':
+                            new_, _n = H.build_list(heap, [deep(heap.objs[nd.name]['value']) for nd in H.read_list(heap, v)[0]])
+                            memo[v.name] = new_
+                            return new_
+                        new_ = heap.alloc(o_['__class__'], {}, name='@copy_of_' + v.name.lstrip('@'))
+                        memo[v.name] = new_
+                        for k_, x_ in list(o_.items()):
+                            if k_ != '__class__':
+                                heap.objs[new_.name][k_] = x_ if k_ in ('parent_element', '_parent_element') else deep(x_)
+                        return new_
+                    if own is not None:
+                        heap.hooks['copy.deepcopy'] = lambda it_, a_, k_: deep(a_[0])
+                        heap.hooks['deepcopy'] = heap.hooks['copy.deepcopy']
+                        it0 = H.Interp(heap)
+                        try:
+                            f2 = it0.call(H.Closure(own.node, {}, f, own.cls), [heap.new_dict()])
+                        except H.Raised as x:
+                            rep.fail('C10.R4', own.site, 'a document can be copied', 'copy.deepcopy(document) raises %s' % x.exc, where=own.where)
+                            return
+                        if not (isinstance(f2, H.Ref) and heap.objs[f2.name]['__class__'] == fcls) or f2 == f:
+                            raise AnalysisError('%s returns %r for the model document' % (own.site, f2))
+                    else:
+                        f2 = deep(f)
+                    lst2 = heap.objs[f2.name]['_token_and_elements']
+                    paras2 = [heap.objs[nd.name]['value'] for nd in H.read_list(heap, lst2)[0] if heap.objs[heap.objs[nd.name]['value'].name].get('#kind') == 'P']
+                    if len(paras2) != 2 or set(p_.name for p_ in paras2) & set(o.name for o in objs):
+                        raise AnalysisError('%s: the copy of the model document holds %r' % (PM, paras2))
+                    if gone:
+                        # the original has been collected: the weak links that still named it are dead
+                        for o2 in heap.objs.values():
+                            if o2.get('parent_element') == f:
+                                o2['parent_element'] = None
+                    para = paras2[0] if which == 'the copy' else objs[0]
+                    recv, rlst = (f2, lst2) if target == 'the copy' else (f, lst)
+                    args = [para] if op == 'append' else [idx, para]
+                    fn, it, clo, a = run_method(src, heap, recv, fcls, op, args)
+                    n += 1
+                    what = 'after document2 = copy.deepcopy(document)%s: %s.%s(%sa paragraph of %s) is refused' % (
+                        ' (and the original is gone)' if gone else '', 'document2' if target == 'the copy' else 'document', op, '' if idx is None else '%d, ' % idx, which)
+                    try:
+                        it.call(clo, a)
+                        exc = None
+                    except H.Raised as x:
+                        exc = x.exc
+                    if exc is None:
+                        times = sum(1 for nd in H.read_list(heap, rlst)[0] if heap.objs[nd.name]['value'] == para)
+                        rep.fail('C10.R4', fn.site, what, 'it is taken: the paragraph %s%s -- one edit of it changes two places' % (
+                            'stands %d times in that document' % times if target == which else 'now stands in both documents',
+                            '' if own is not None else ' (%s has no __deepcopy__: copied attribute by attribute, the paragraphs of the copy keep the weak parent link of their originals)' % fcls),
+                            where=(own or fn).where)
+                        return
+                    if not exc.endswith('ValueError'):
+                        rep.fail('C10.R4', fn.site, what, 'raises %s, not ValueError' % exc, where=fn.where)
+                        return
+    rep.ok('C10.R4', '%s:%s.__deepcopy__' % (PM, fcls), 'a deep copy of a document owns its paragraphs: neither document takes a paragraph that stands in one of them',
+           '%d scenarios (%s)' % (n, 'the __deepcopy__ of the class interpreted' if own is not None else 'copied attribute by attribute'))
+
+
 def r7_copy_protocol(rep, src):
     """a paragraph that was made by copy.deepcopy() can be appended to a document (C10.R4) and is then a paragraph of the document like any
     other: the class that keeps its fields in a linked list -- which rebuilds itself with new nodes when it is copied (its own
@@ -1095,6 +1189,7 @@ def check(src, rep, tier):
     rep.guard('C10.R5', r_nodup_histories, src)
     rep.guard('C10.R4', r4_file_insert_append, src)
     rep.guard('C10.R4', r4c_copy_of_a_paragraph, src)
+    rep.guard('C10.R4', r4d_copy_of_a_document, src)
     rep.guard('C10.R4', r5d_element_of_another_paragraph, src)
     rep.guard('C10.R4', r5e_element_in_two_paragraphs, src)
     rep.guard('C10.R2', r_sort, src)
